@@ -632,7 +632,9 @@ class ASTCodeGenerator(object):
         self._write('[')
         self.visit(node.elt)
         for generator in node.generators:
-            # comprehension = (expr target, expr iter, expr* ifs)
+            # comprehension = (expr target, expr iter, expr* ifs, int is_async)
+            if getattr(generator, 'is_async', 0):
+                self._write(' async')
             self._write(' for ')
             self.visit(generator.target)
             self._write(' in ')
@@ -647,7 +649,9 @@ class ASTCodeGenerator(object):
         self._write('(')
         self.visit(node.elt)
         for generator in node.generators:
-            # comprehension = (expr target, expr iter, expr* ifs)
+            # comprehension = (expr target, expr iter, expr* ifs, int is_async)
+            if getattr(generator, 'is_async', 0):
+                self._write(' async')
             self._write(' for ')
             self.visit(generator.target)
             self._write(' in ')
